@@ -74,16 +74,17 @@ def _fp(node, deep):
 
 def rebuild(node):
     """Reconstruct the tree through the public constructors so that it carries no cached state."""
-    cls = type(node)
-    kwargs = {}
+    # cls() + set(): a few constructors normalise their arguments (TimeUnit re-creates its unit Var), which would make the rebuilt
+    # tree differ from an edited original for reasons that have nothing to do with cached hashes
+    new = type(node)()
     for k, v in node.args.items():
         if _is_expr(v):
-            kwargs[k] = rebuild(v)
+            new.set(k, rebuild(v))
         elif type(v) is list:
-            kwargs[k] = [rebuild(x) if _is_expr(x) else x for x in v]
-        else:
-            kwargs[k] = v
-    return cls(**kwargs)
+            new.set(k, [rebuild(x) if _is_expr(x) else x for x in v])
+        elif v is not None:
+            new.set(k, v)
+    return new
 
 
 def link_errors(root, limit: int = 5) -> t.List[str]:
